@@ -151,7 +151,7 @@ fn generate(rng: &mut Rng, index: u64) -> ConnScenario {
             }
         }
     }
-    for k in 0..6 {
+    for k in 0..48 {
         menu.push((0, 10, k)); // a long run of valid ignorable frames in one burst while the server waits for Client Information
     }
     let (fi, class, par) = menu[((index / 4) % menu.len() as u64) as usize];
